@@ -90,7 +90,10 @@ fn observe(vm: &Thread, p: &Prog) -> String {
     });
     match r {
         Ok(s) => s,
-        Err(p) => format!("panic|{}", p),
+        // A panic is a crash, not a diagnostic: its payload (often a `{:?}` dump with heap
+        // addresses) is not text the property speaks about; the outcome class and the message
+        // with addresses masked are still compared.
+        Err(p) => format!("panic|{}", mask_after(&p.chars().take(300).collect::<String>(), "0x")),
     }
 }
 
@@ -131,14 +134,17 @@ fn run_history(mode: &str, progs: &[Prog], seed: u64) -> Vec<(usize, String)> {
         }
         // one long-lived VM: unrelated work first, other VMs and threads created, heap shifted,
         // stream permuted, unrelated work in between
-        "long" => {
-            let mut rng = Rng::new(seed, 1601);
-            let _others: Vec<RootedThread> = (0..3).map(|_| gv::vm::new_vm()).collect();
+        "long" | "long2" => {
+            let second = mode == "long2";
+            let mut rng = Rng::new(seed, if second { 1611 } else { 1601 });
+            let _others: Vec<RootedThread> =
+                (0..if second { 1 } else { 3 }).map(|_| gv::vm::new_vm()).collect();
             let mut ballast: Vec<Vec<u8>> = vec![];
             for pre in [false, true] {
                 let vm = fresh_vm(pre);
-                let _threads: Vec<_> = (0..4).filter_map(|_| vm.new_thread().ok()).collect();
-                for k in 0..12 {
+                let _threads: Vec<_> =
+                    (0..if second { 9 } else { 4 }).filter_map(|_| vm.new_thread().ok()).collect();
+                for k in 0..(if second { 40 } else { 12 }) {
                     junk(&vm, k);
                 }
                 let mut order: Vec<usize> =
@@ -246,7 +252,11 @@ fn mask_after(s: &str, prefix: &str) -> String {
     while let Some(k) = rest.find(prefix) {
         out.push_str(&rest[..k + prefix.len()]);
         rest = &rest[k + prefix.len()..];
-        let n = rest.bytes().take_while(|b| b.is_ascii_digit()).count();
+        let hex = prefix == "0x";
+        let n = rest
+            .bytes()
+            .take_while(|b| if hex { b.is_ascii_hexdigit() } else { b.is_ascii_digit() })
+            .count();
         if n > 0 {
             out.push('N');
         }
@@ -292,7 +302,7 @@ fn oracle(out: &mut Out, args: &Args, progs: &[Prog]) {
     let tier = args.tier.clone();
     let mut hist: Vec<(String, Vec<(usize, String)>)> = vec![];
     hist.push(("fresh-inproc".into(), run_history("fresh", progs, args.seed)));
-    for mode in ["fresh", "long", "twice"] {
+    for mode in ["fresh", "long", "long2", "twice"] {
         match run_child(mode, &tier, args.seed) {
             Ok(v) => hist.push((format!("{}-child", mode), v)),
             Err(e) => {
@@ -804,7 +814,7 @@ fn replay(args: &Args, file: &std::path::Path) {
     // the full histories of the recorded seed/tier, restricted to the recorded index
     if let (Some(seed), Some(tier), Some(idx)) = (case["seed"].as_u64(), case["tier"].as_str(), case["index"].as_u64()) {
         let _ = args;
-        for mode in ["fresh", "long", "twice"] {
+        for mode in ["fresh", "long", "long2", "twice"] {
             if let Ok(obs) = run_child(mode, tier, seed) {
                 for (i, o) in obs {
                     if i as u64 == idx {
